@@ -351,7 +351,8 @@ func (cc *grpcClientConn) Spec() Spec {
 
 func (cc *grpcClientConn) Send(msg any) error {
 	if err := cc.marshaler.Marshal(msg); err != nil {
-		return err
+		// Whatever went wrong, once the context is done that's why the call fails.
+		return wrapIfContextDone(cc.duplexCall.ctx, err)
 	}
 	return nil // must be a literal nil: nil *Error is a non-nil error
 }
